@@ -446,6 +446,10 @@ func runC11(c *ctx) error {
 				vs = []string{}
 			default:
 				for k := 0; k < 1+rng.Intn(3); k++ {
+					if rng.Intn(4) == 0 {
+						vs = append(vs, "") // the empty string is a value like any other
+						continue
+					}
 					vs = append(vs, core.Pick(rng, vals))
 				}
 			}
@@ -480,6 +484,13 @@ func runC11(c *ctx) error {
 		for _, a := range adjs {
 			if !a.isNil {
 				ps = append(ps, a.with)
+			}
+		}
+		// a permutation of the right size for a one-dimension matrix that names some other dimension (its value is
+		// whatever: the zero value a missing key reads as included)
+		for _, nm := range names3 {
+			if _, has := setup[nm]; !has {
+				ps = append(ps, map[string]string{nm: core.Pick(rng, append(vals, ""))})
 			}
 		}
 		if i%10 == 5 {
